@@ -72,41 +72,41 @@ theorem json_roundtrip (T : Ty) (hT : T.wf = true) (v : Val) (hw : v.wf = true) 
     ∧ (∃ j v', marshalTree v = .some j ∧ unmarshalTyped T j = .some v' ∧ v'.isEqual v = true) :=
   ⟨rt_typed _ T hT v hw hr, rt_typed _ T hT v hw hr⟩
 
-/-- The route a program takes (`to_json`, `parse_json`, annotated `let`) for all JSON-representable
-values — this full statement is **false** of the code (X5, open): see the counterexample. -/
-def json_roundtrip_prog_full : Prop :=
-  ∀ (T : Ty) (v : Val), T.wf = true → v.wf = true → jsonRepr T v = true →
-    ∃ j v', marshalVM v = .some j ∧ castAll false T (unmarshalUntyped j) [] = .ok v' ∧ v'.isEqual v = true
-
-/-- What does hold on the program route, for both libraries: with the extra hypothesis that no
-float inside the value is integral (`noIntegralFloat`, the zone X5 spoils), a JSON-representable
-value written by `to_json`, read by `parse_json` and bound by an annotated `let` of its type is
-an equal value. -/
-theorem json_roundtrip_prog_partial (T : Ty) (hT : T.wf = true) (v : Val) (hw : v.wf = true)
-    (hr : jsonRepr T v = true) (hf : noIntegralFloat v = true) (p : Path) :
+/-- The route a program takes (`to_json`, `parse_json`, annotated `let`), for both libraries and
+for all values JSON-representable on that route (`jsonReprProg`: every int, not only those below
+2^53 — J1: `parse_json` reads an integer spelling exactly as an int and every other number as a
+float, so that whole floats such as `2.0` come back as floats; the former X5 zone needs no extra
+hypothesis any more): a value written by `to_json`, read by `parse_json` and
+bound by an annotated `let` of its type is an equal value. -/
+theorem json_roundtrip_prog (T : Ty) (hT : T.wf = true) (v : Val) (hw : v.wf = true)
+    (hr : jsonReprProg T v = true) (p : Path) :
     (∃ j v', marshalVM v = .some j ∧ castAll false T (unmarshalUntyped j) p = .ok v' ∧ v'.isEqual v = true)
     ∧ (∃ j v', marshalTree v = .some j ∧ castAll false T (unmarshalUntyped j) p = .ok v' ∧ v'.isEqual v = true) :=
-  ⟨rt_prog _ T hT v hw hr hf p, rt_prog _ T hT v hw hr hf p⟩
+  ⟨rt_prog _ T hT v hw hr p, rt_prog _ T hT v hw hr p⟩
 
-/-- non-vacuity: a nested value in the class -/
+/-- non-vacuity: a nested value in the class, with a whole float -/
 example : let T : Ty := .obj (.cons "a" (.list (.opt .int)) (.cons "b" .float .nil))
-          let v : Val := .obj (.cons "b" (.flt ⟨5, 1⟩) (.cons "a" (.list (.cons .none (.cons (.some (.int 7#64)) .nil))) .nil))
-          T.wf = true ∧ v.wf = true ∧ jsonRepr T v = true ∧ noIntegralFloat v = true := by decide
+          let v : Val := .obj (.cons "b" (.flt ⟨2, 0⟩) (.cons "a" (.list (.cons .none (.cons (.some (.int 7#64)) .nil))) .nil))
+          T.wf = true ∧ v.wf = true ∧ jsonReprProg T v = true := by decide
 
-private def okB' : CastRes → Bool
-  | .ok _ => true
-  | .error _ => false
+/-- non-vacuity: ints beyond 2^53 and at the end of the range are in the class of the program route
+(not in the class of the typed route of a host which decodes to float64) -/
+example : let T : Ty := .list .int
+          let v : Val := .list (.cons (.int 9007199254740993#64) (.cons (.int 9223372036854775807#64) .nil))
+          T.wf = true ∧ v.wf = true ∧ jsonReprProg T v = true ∧ jsonRepr T v = false := by decide
 
-/-- X5 (open): the float 2.0 is written as `2.0`, read back as the int 2 and then refused by the
-annotated `let … : float` (no scalar conversions there). -/
-theorem json_roundtrip_prog_counterexample : ¬ json_roundtrip_prog_full := by
-  intro h
-  obtain ⟨j, v', h1, h2, _⟩ := h .float (.flt ⟨2, 0⟩) (by decide) (by decide) (by decide)
-  simp [marshalVM, marshalWith] at h1
-  subst h1
-  have : okB' (castAll false .float (unmarshalUntyped (.num ⟨2, 0⟩ false)) []) = false := by decide
-  rw [h2] at this
-  cases this
+/-- The former X5 witness: the float 2.0 is written as `2.0`, read back as the float 2.0 and accepted
+by the annotated `let … : float`. -/
+theorem json_roundtrip_whole_float :
+    marshalVM (.flt ⟨2, 0⟩) = .some (.num ⟨2, 0⟩ false)
+    ∧ castAll false .float (unmarshalUntyped (.num ⟨2, 0⟩ false)) [] = .ok (.flt ⟨2, 0⟩) := by
+  simp [marshalVM, marshalWith, unmarshalUntyped, castAll]
+
+/-- An int beyond 2^53 is read back exactly by `parse_json` (the typed route of a host which decodes
+to float64 rounds it). -/
+theorem json_untyped_big_int :
+    (marshalVM (.int 9007199254740993#64)).map unmarshalUntyped = .some (.int 9007199254740993#64) := by
+  simp [marshalVM, marshalWith, unmarshalUntyped]
 
 /-- X26 (open): the typed unmarshaller of the VM library panics on an any-object type. -/
 theorem typed_unmarshal_anyobj_counterexample : unmarshalTyped .anyobj (.obj .nil) = .none := by decide
